@@ -65,6 +65,12 @@ func (x *Exec) doCall(st *State, fr *Frame, in ssa.Instruction, call *ssa.CallCo
 	{
 		k0 := k
 		k = func(s2 *State, o Outcome) {
+			if !o.Panic {
+				if s2.rets == nil {
+					s2.rets = map[string]int{}
+				}
+				s2.rets[cname]++
+			}
 			if !o.Panic && len(o.Vals) > 0 {
 				if s2.lastRes == nil {
 					s2.lastRes = map[string]Val{}
